@@ -623,6 +623,13 @@ pub fn fa1() -> Vec<f32> {
     v[1] = 0.28;
     v
 }
+/// half-way look: cosine similarity 0.5 to a (0.48 to a'), Euclidean distance 1
+pub fn fc() -> Vec<f32> {
+    let mut v = vec![0.0f32; 16];
+    v[0] = 0.5;
+    v[2] = 0.8660254;
+    v
+}
 pub fn fb() -> Vec<f32> {
     let mut v = vec![0.0f32; 16];
     v[5] = 1.0;
